@@ -101,7 +101,7 @@ pub fn gen_scenario(seed: u64, fixtures: &[String]) -> Scenario {
                 }
                 _ => Op::Width,
             };
-            let call = Call { op, doc, cfg, feed_prev: false };
+            let call = Call { op, doc, cfg, feed_prev: false, via_clone: rng.chance(0.4) };
             match rng.below(10) {
                 // the same operation twice in a row
                 0 | 1 => {
